@@ -7,6 +7,7 @@ pre-state satisfied the invariant and the post-state does not.
 """
 from .. import ops, snap
 from ..env import xgi
+from .. import suite
 from ..monitor import short
 from . import common
 
@@ -18,6 +19,7 @@ RULE = (
     "case = one seeded edit history (<= 25 ops from the full Hypergraph mutator alphabet incl. in-place library helpers) "
     "from a constructible start state; one evaluation = the invariant checked after one op (returned or raised). "
     "distinct_nontrivial = distinct (op name, outcome, canonical post-state) triples where the op changed the state or raised"
+    " | suite: the repository's own tests run under xgimon/suite_plugin.py; every outermost public boundary call on a network is one more evaluation"
 )
 ASSUMPTIONS = [
     "labels: ints, gapped/negative ints, strings; explicit edge IDs incl. 0, True, 2.0, non-increasing; None and empty members in hostile episodes",
@@ -29,15 +31,18 @@ INV = staticmethod(snap.inv_undirected)
 
 def plan(tier):
     if tier == "quick":
-        return {"hostile": 7000, "steered": 3500, "start": 1500}
-    return {"hostile": 500000, "steered": 300000, "start": 100000}
+        return {"hostile": 7000, "steered": 3500, "start": 1500, "suite": 1}
+    return {"hostile": 500000, "steered": 300000, "start": 100000, "suite": 1}
 
 
 def floors(tier):
     f = {f"op:{n}": 20 for n in common.op_names(CLS)}
     f.update({"post-raise-evaluations": 50, "outcome:returned": 1000, "changed-state": 500})
+    f["suite:evaluations"] = 300  # boundary calls of the repository's own tests observed by the same oracle
     return f
 
 
 def run_case(mon, kind, idx, rng):
+    if kind == "suite":  # the repository's own tests as a workload, observed by xgimon/suite_plugin.py
+        return suite.run(mon, PID, mon.tier)
     common.invariant_episode(mon, PID, CLS, snap.inv_undirected, kind, rng)
